@@ -64,7 +64,7 @@ def compare(ctx, job, m, o, tag, failed):
 
 
 def variants(rng, prog, thorough):
-    """Nestings of a flat DAG: every convex subset (capped), local renames, binding placement, depth."""
+    """Nestings of a flat DAG: every convex subset (capped), local renames, binding placement, depth, sibling nested graphs."""
     subs = list(gen.convex_subsets(prog))
     rng.shuffle(subs)
     cap = 12 if thorough else 4
@@ -125,7 +125,19 @@ def variants(rng, prog, thorough):
                                 depth = 3
                     except Exception:  # noqa: BLE001
                         pass
-            yield p2, hidden, f"S={'+'.join(S)}/rin={rin}/rout={rout}/ib={ib}/sel={sel}/depth{depth}"
+            sib = ""
+            if rng.random() < 0.3:
+                # a SIBLING nested graph next to the first one (it may consume a name the first one binds inside)
+                s2 = [T for T in gen.convex_subsets(p2) if "inner" not in T]
+                if s2:
+                    try:
+                        T = rng.choice(s2)
+                        p3 = gen.nest(p2, T, name="inner2")
+                        p3["max_iter"] = p2["max_iter"]
+                        p2, sib = p3, "/sibling=" + "+".join(T)
+                    except Exception:  # noqa: BLE001
+                        pass
+            yield p2, hidden, f"S={'+'.join(S)}/rin={rin}/rout={rout}/ib={ib}/sel={sel}/depth{depth}{sib}"
 
 
 def make_pairs(tier, rng):
